@@ -361,6 +361,9 @@ func runC09(c *Ctx) {
 	c.copyNBounded("A20")
 	c.c09DeferredCleanupKeepsTheError()
 	c.c09NoDetourAroundTheContext()
+	// A23: "end-of-stream conditions being reported as the 'EOF' kind" — also when the reader wrapped them
+	c.rule("A23", "no converter of the module compares an error with a sentinel by identity: an end-of-stream that reaches ConvertIOError wrapped is still reported as the 'EOF' kind (the obligation C11/D16)", 5)
+	c.c11ConvertersWrapTheKind("A23", "")
 
 	// ---- A19 ----------------------------------------------------------------
 	c.rule("A19", "the kind of the end of a context is read from ctx.Err(), never from context.Cause, anywhere in the module", 0)
